@@ -145,10 +145,19 @@ func runSigTraced(c sigTraceCfg) (string, []extractor.VerifEvent, bool) {
 	all := extractor.VerifTraceStop()
 	samples, lastTotal := atomic.LoadInt64(&w.n), atomic.LoadInt64(&last)
 	atomic.StoreInt32(&stop, 1)
+	// Wait until the rest of the pipeline has ended (readChan is closed once every worker has returned): a worker that
+	// exits later would log its `w.exit` into the trace of the NEXT case (seen under load: an atrace log with the worker
+	// exits of this case's extractor, "4 worker goroutines logged, 2 configured").
+	drained := make(chan struct{})
 	go func() {
 		for range ext.ReadChan() {
 		}
+		close(drained)
 	}()
+	select {
+	case <-drained:
+	case <-time.After(3 * time.Second):
+	}
 	var evs []extractor.VerifEvent
 	signalled := 0
 	for _, e := range all {
